@@ -471,6 +471,8 @@ func rulesC10(e *Engine, r *Report) {
 	// ---------------------------------------------------------------- R10.8
 	r.Rule("R10.8", "files resumed after a restart keep the predecessor they had announced: every recoverFile that recover() builds with a list of missing ranges takes its predecessor from the receiver's partial record (the sender's cache does not store it, and a polled object built from the cache has none) - shared with R04.6")
 	e.checkRecoverKeepsPrev(r, "R10.8")
+	// ---------------------------------------------------------------- R10.9
+	e.shareRule(r, "C19", "R19.5", "R10.9", "a group is ordered by its own tag: the tagger main hands to the queue answers a group name - which the grouper makes the tag's own name when group-by yields nothing - with that tag, not with the default tag whose order and predecessor policy differ")
 }
 
 func rulesC12(e *Engine, r *Report) {
